@@ -16,7 +16,7 @@ import time
 
 VERIF = os.path.dirname(os.path.abspath(__file__))
 REPO = "/repo"
-ENV = dict(os.environ, GOFLAGS="-mod=mod", GOPROXY="off", GOSUMDB="off", GOTOOLCHAIN="local")
+ENV = dict(os.environ, GOFLAGS="-mod=mod", GOPROXY="off", GOSUMDB="off", GOTOOLCHAIN="local", VERIF_EVIDENCE_DIR=os.path.join(os.path.dirname(os.path.abspath(__file__)), "work", "evidence-experiments"))
 
 
 def sh(cmd, cwd=None, timeout=1800):
